@@ -550,6 +550,7 @@ def run(ctx):
 
 
 SELFTEST = [
+    ('is-zero-window-widened', 'pyerrors/obs.py', '    def is_zero(self, atol=1e-10):', '    def is_zero(self, atol=1e-8):', 'C19-D4'),
     ('prior-regex-drops-sign', 'pyerrors/fits.py', "    split_string = string.split('(')", "    import_free = string.lstrip('+-')\n    split_string = import_free.split('(')", 'C19-D2'),
     ('benign-prior-partition', 'pyerrors/fits.py', "    split_string = string.split('(')", "    split_string = list(string.partition('(')[::2])", 'BENIGN'),
     ('prior-error-unscaled-with-dot', 'pyerrors/fits.py', "if '.' in split_string[0] and '.' not in split_string[1][:-1]:", "if '.' in split_string[0]:", 'C19-D2'),
